@@ -30,6 +30,7 @@ func checkC03(p *Prog, r *Report) {
 	r.rule("C03.P4", "Recv sets ASK_TELL when the delivery queue was full before popping and has room afterwards", 1)
 	r.rule("C03.P5", "rmt_wnd is stored only by the constructor and, in Input, from the header's wnd under pktType == IKCP_PACKET_REGULAR", 2)
 	r.rule("C03.P6", "every emitted segment's wnd comes from wnd_unused() (= C04.W3)", 2)
+	r.rule("C03.P8", "no data is lost under back-pressure: a segment that Input acknowledges is stored unless it is outside the window or a duplicate (= C02.A1b)", 1)
 	r.rule("C03.P7", "duplicates of already delivered segments are re-acknowledged: ack_push is controlled by the upper window edge only", 1)
 
 	askSend := p.ConstInt("IKCP_ASK_SEND")
@@ -188,6 +189,39 @@ func checkC03(p *Prog, r *Report) {
 				}
 			}
 		}
+		// direct form: flag := Len() >= rcv_wnd (or var flag = ...), evaluated before the first Pop
+		inspectBody(recvF, func(n ast.Node) bool {
+			var lhs *ast.Ident
+			var rhs ast.Expr
+			switch x := n.(type) {
+			case *ast.AssignStmt:
+				if len(x.Lhs) == 1 && len(x.Rhs) == 1 {
+					lhs, _ = x.Lhs[0].(*ast.Ident)
+					rhs = x.Rhs[0]
+				}
+			case *ast.ValueSpec:
+				if len(x.Names) == 1 && len(x.Values) == 1 {
+					lhs, rhs = x.Names[0], x.Values[0]
+				}
+			}
+			if lhs == nil || rhs == nil || p.Term(rhs).Key() != le(wnd, lenQ).Key() {
+				return true
+			}
+			v, _ := p.Info.Defs[lhs].(*types.Var)
+			if v == nil {
+				v, _ = p.Info.Uses[lhs].(*types.Var)
+			}
+			if v == nil || len(p.Assignments(recvF, v)) != 1 {
+				return true
+			}
+			if pt, ok := rc.PointOf(n); ok {
+				flag = v
+				if firstPop != nil && !rc.Reaches(*firstPop, pt) {
+					okBefore = true
+				}
+			}
+			return true
+		})
 		inspectBody(recvF, func(n ast.Node) bool {
 			as, ok := n.(*ast.AssignStmt)
 			if !ok || len(as.Lhs) != 1 || len(as.Rhs) != 1 || p.Term(as.Rhs[0]).Op != "true" {
@@ -310,6 +344,7 @@ func checkC03(p *Prog, r *Report) {
 
 	// ---- P7
 	checkAckEveryPush(p, r, "C03.P7")
+	checkAckedIsAccepted(p, r, "C03.P8")
 }
 
 func checkProbeTimer(p *Prog, r *Report, flush *FuncInfo) {
